@@ -172,6 +172,16 @@ func genC20pass(r *Run) int {
 			if r.Rng.Intn(4) == 0 {
 				o4[0] = r.Bytes(r.Pick(0, 1))
 			}
+			if r.Rng.Intn(2) == 0 {
+				// the option written last (82) together with its numeric neighbours and the codes next to the framing
+				// codes (1, 253, 254): wherever an ordering rule gives two keys the same rank
+				o4[82] = r.Bytes(r.Pick(2, 5))
+				for _, c := range []byte{254, 253, 81, 83, 1} {
+					if r.Rng.Intn(2) == 0 {
+						o4[c] = r.Bytes(r.Pick(1, 3))
+					}
+				}
+			}
 			a := r.randPkt(o4)
 			if r.Rng.Intn(3) == 0 {
 				a[10] = r.Bytes(r.Pick(17, 20, 20, 32, 255)) // a constructed packet may hold a hardware address longer than the 16-octet field
